@@ -29,7 +29,7 @@ LEVEL_NOTE = "Trusted: the reference graph checker (DFS cycle test, per-phase id
 
 EXTRA = ["none", "dangling", "cross"]
 SWITCH = ["none", "existing", "missing"]
-FLAGS = ["none", "one", "two-in-one-phase", "one-per-phase"]
+FLAGS = ["none", "one", "two-in-one-phase", "two-identical-in-one-phase", "one-per-phase"]
 
 
 def ref_wellformed(n, edges, extras, switch, flags):
@@ -55,7 +55,7 @@ def ref_wellformed(n, edges, extras, switch, flags):
         return False, "cycle"
     if switch == "missing":
         return False, "missing-phase"
-    if flags == "two-in-one-phase":
+    if flags in ("two-in-one-phase", "two-identical-in-one-phase"):
         return False, "flag-redefined"
     return True, "well-formed"
 
@@ -73,8 +73,9 @@ def build_method(n, edges, extras, switch, flags):
             stmts.append(SwitchPhase("p1" if switch == "existing" else "zz", id="s%d" % i, depends_on=d))
         elif i == 0 and flags != "none":
             stmts.append(Assign(id="s0", assignee="<cond>c", assignee_subscript=(), expression=True, depends_on=d))
-        elif i == 1 and flags == "two-in-one-phase":
-            stmts.append(Assign(id="s1", assignee="<cond>c", assignee_subscript=(), expression=False, depends_on=d))
+        elif i == 1 and flags in ("two-in-one-phase", "two-identical-in-one-phase"):
+            stmts.append(Assign(id="s1", assignee="<cond>c", assignee_subscript=(),
+                                expression=(False if flags == "two-in-one-phase" else True), depends_on=d))
         else:
             stmts.append(Assign(id="s%d" % i, assignee="<p>x%d" % i, assignee_subscript=(), expression=i,
                                 depends_on=d))
@@ -86,12 +87,12 @@ def build_method(n, edges, extras, switch, flags):
 
 
 def feasible(n, switch, flags):
-    if flags == "two-in-one-phase" and n < 2:
+    if flags in ("two-in-one-phase", "two-identical-in-one-phase") and n < 2:
         return False
     # the switch statement replaces the last statement; flags use s0 (and s1)
     if switch != "none" and flags != "none" and n < 2:
         return False
-    if switch != "none" and flags == "two-in-one-phase" and n < 3:
+    if switch != "none" and flags in ("two-in-one-phase", "two-identical-in-one-phase") and n < 3:
         return False
     return True
 
@@ -199,7 +200,7 @@ def cases(tier):
 
 
 def bounds(tier):
-    return {"n<=3": "all 2^(n*n) digraphs x 3^n extra-edge tuples x 3 switch targets x 4 flag patterns",
+    return {"n<=3": "all 2^(n*n) digraphs x 3^n extra-edge tuples x 3 switch targets x 5 flag patterns",
             "n=4": "all 65536 digraphs x " + ("(no extras; switch/flags on every 4th graph)" if tier == "quick" else
                                               "3 switch targets x 4 flag patterns + one dangling/cross edge"),
             "consumers": "interpreter (2 steps) + Python generator on every accepted method; Fortran generator for n<=3"}
